@@ -66,9 +66,6 @@ func AStar(s, t graph.Node, g traverse.Graph, h Heuristic) (path Shortest, expan
 		for to.Next() {
 			v := to.Node()
 			vid := v.ID()
-			if visited.Has(vid) {
-				continue
-			}
 			j, ok := path.indexOf[vid]
 			if !ok {
 				j = path.add(v)
@@ -83,6 +80,13 @@ func AStar(s, t graph.Node, g traverse.Graph, h Heuristic) (path Shortest, expan
 			}
 			g := u.gscore + w
 			if n, ok := open.node(vid); !ok {
+				if visited.Has(vid) && g >= path.dist[j] {
+					// Only re-open an expanded node
+					// for a strictly better path; this
+					// is needed for heuristics that are
+					// admissible but not consistent.
+					continue
+				}
 				path.set(j, g, i)
 				heap.Push(open, aStarNode{node: v, gscore: g, fscore: g + h(v, t)})
 			} else if g < n.gscore {
